@@ -196,6 +196,13 @@ def tlc(module, cfg, specdirs=None, workers=1, simulate=None, depth=None, tlc_se
         m = re.match(r"^Error: Action property (\S+) is violated", line)
         if m:
             res.violated = m.group(1)
+        m = re.match(r"^Error: Temporal property (\S+) was violated", line)
+        if m:
+            res.violated = m.group(1)
+        m = re.match(r"^The number of states generated: (\d+)", line)
+        if m and res.generated == 0:
+            res.generated = int(m.group(1))      # -simulate prints only this counter
+            res.distinct = max(res.distinct, 0)
         if line.startswith("Error: Temporal properties were violated"):
             res.violated = res.violated or "TemporalProperty"
         if line.startswith("Error: Deadlock reached"):
